@@ -264,7 +264,9 @@ TIE = {
          "every grid, value and fuel >= 1 (the repair loops never iterate); C04_tie_value_covered_whatever_the_rounding - for ANY float "
          "arithmetic obeying four order laws (true of IEEE-754), whenever the code returns for a finite value, the value lies inside the "
          "edges as the code computes them (loop invariants through both while loops); C04_tie_array_branch_is_model - the array branch "
-         "of _force_bin_existence (minimum, then maximum) is the model's force_array."),
+         "of _force_bin_existence (minimum, then maximum) is the model's force_array; C04_tie_value_covered_binary64 - the same coverage "
+         "for Coq's primitive binary64 floats (depends on the standard library's axioms FloatAxioms.ltb_spec / leb_spec / eqb_spec, the "
+         "specification of the primitive comparisons)."),
  "C05": ("Tie by translation (coq/Props/C05_tie.v against coq/Gen/PyFW.v = the current source of FixedWidthBinning._adapt / "
          "_force_new_min_max / _set_min_and_count): for every pair of fixed-width binnings the translated _adapt raises exactly when the "
          "model refuses (different width or shift), otherwise self becomes the model's union axis and the two returned bin maps are the "
